@@ -76,7 +76,7 @@ Fixpoint read_uint_loop (p : profile) (items : bytes) (i : N) (ret : N) : outcom
       do s <- (if ret + v <? 2 ^ 64 then Val (ret + v) else match p with Debug => Panic WAdd | Release => Val ((ret + v) mod 2 ^ 64) end);
       read_uint_loop p r (i + 1) s
   end.
-(* since fc1698d (F19 repaired): `else if size > size_of::<usize>() { Err(NumericOverflow) }` between the length test and the loop
+(* since 6050d64 (F19 repaired): `else if size > size_of::<usize>() { Err(NumericOverflow) }` between the length test and the loop
    (usize is 64 bit: 8 bytes) *)
 Definition read_uint_p (p : profile) (data : bytes) (size : nat) : outcome N :=
   if (length data <? size)%nat then Fail (E "early")
@@ -421,7 +421,7 @@ Definition minimum_value_p (v : vkind) (opret : bool) (prf : option bytes) : out
   | VKConf => match prf with None => Val min_value | Some p => minimum_value_conf opret p end end.
 
 (* Transaction::fee_in / all_fees: the explicit u64 values of the fee outputs of one asset, in output order, added with
-   `u64::saturating_add` since 8ea09fb (F17 repaired; before: `+`, panicking or wrapping at 2^64) *)
+   `u64::saturating_add` since 7b7cbe8 (F17 repaired; before: `+`, panicking or wrapping at 2^64) *)
 Definition U64_MAX : N := 2 ^ 64 - 1.
 Definition sat_add (a b : N) : N := N.min (a + b) U64_MAX.
 Fixpoint fee_sum (vals : list N) (acc : N) : N := match vals with [] => acc | v :: r => fee_sum r (sat_add acc v) end.
